@@ -256,6 +256,12 @@ def judge(case, s, ctx, net, seen):
     # (with a node address in use the frame size oracle below decides)
     exp.append(('ini.dep.rwt', round(mi.rwt, 9),
                 round(4096 / 13.56E6 * 2 ** rwt, 9)))
+    # the Initiator's target object says at which rate it sends and listens
+    # (drivers program the radio from both values)
+    tgt_obj = getattr(mi, 'target', None)
+    if tgt_obj is not None and hasattr(tgt_obj, 'brty_send'):
+        exp.append(('ini.target.brty_recv=brty_send', tgt_obj.brty_recv,
+                    tgt_obj.brty_send))
     for what, got, want in exp:
         if got != want:
             bad.append(('negotiation|%s' % what, dict(got=got, want=want)))
